@@ -1,6 +1,7 @@
 SPECIFICATION GKSpec
 CONSTANTS
   MaxLen = 0
+  ReadSize = 1
   Classes = {"idn"}
   MaxPend = 1
   Threads = {"req"}
@@ -10,6 +11,7 @@ CONSTANTS
   FullDepth = 0
   WideDepth = 0
   Wide = {}
+  Pauses = FALSE
   Core = {}
 INVARIANT EmitK
 CHECK_DEADLOCK FALSE
